@@ -1,14 +1,25 @@
 //! vx_refs: see /verif/harness/AGENTS-GUIDE.md; one module per property, dispatched on the property id.
+mod c09;
+mod c09_grammar;
+mod c32;
+mod c32_fmt;
+mod c32_manifest;
+mod c32_seq;
+mod c32_txn;
+mod c38;
 
 use vcore::{machinery_error, Ctx};
 
 fn main() {
     let ctx = Ctx::from_args();
-    vcore::quiet_panics();
-    #[allow(clippy::match_single_binding)]
+    if std::env::var("VX_DEBUG").is_err() {
+        vcore::quiet_panics();
+    }
     let out: vcore::Outcome = match ctx.id.as_str() {
+        "C09" => c09::run(&ctx),
+        "C32" => c32::run(&ctx),
+        "C38" => c38::run(&ctx),
         other => machinery_error(&format!("vx_refs does not implement {other}")),
     };
-    #[allow(unreachable_code)]
     vcore::finish(&ctx, out);
 }
